@@ -250,6 +250,15 @@ func HandleSelectStmt(p *SelectPlan, stmt *ast.SelectStmt) error {
 		if stmt.Fields != nil {
 			p.columnCount = len(stmt.Fields.Fields)
 		}
+
+		// the statement goes to the one sub table as it is, but the table names in its
+		// GROUP BY / ORDER BY columns and in HAVING are rewritten like everywhere else
+		if err := decorateByItemColumns(p, stmt); err != nil {
+			return fmt.Errorf("handle GroupBy / OrderBy error: %v", err)
+		}
+		if err := handleHaving(p, stmt); err != nil {
+			return fmt.Errorf("handle Having error: %v", err)
+		}
 	}
 
 	if err := postHandleGlobalTableRouteResultInQuery(p.StmtInfo); err != nil {
@@ -263,6 +272,33 @@ func HandleSelectStmt(p *SelectPlan, stmt *ast.SelectStmt) error {
 
 	p.sqls = sqls
 
+	return nil
+}
+
+// decorateByItemColumns rewrites the table-qualified columns of GROUP BY and ORDER BY
+// of a statement that is executed on a single sub table (no column is added to the
+// select list there).
+func decorateByItemColumns(p *SelectPlan, stmt *ast.SelectStmt) error {
+	var items []*ast.ByItem
+	if stmt.GroupBy != nil {
+		items = append(items, stmt.GroupBy.Items...)
+	}
+	if stmt.OrderBy != nil {
+		items = append(items, stmt.OrderBy.Items...)
+	}
+	for _, item := range items {
+		columnExpr, ok := item.Expr.(*ast.ColumnNameExpr)
+		if !ok {
+			continue
+		}
+		rule, need, isAlias, err := NeedCreateColumnNameExprDecoratorInField(p.TableAliasStmtInfo, columnExpr)
+		if err != nil {
+			return err
+		}
+		if need {
+			item.Expr = CreateColumnNameExprDecorator(columnExpr, rule, isAlias, p.GetRouteResult())
+		}
+	}
 	return nil
 }
 
